@@ -11,6 +11,7 @@ import (
 	"github.com/internetarchive/Zeno/internal/pkg/log"
 	"github.com/internetarchive/Zeno/internal/pkg/reactor"
 	"github.com/internetarchive/Zeno/internal/pkg/stats"
+	"github.com/internetarchive/Zeno/internal/pkg/verifhook"
 	"github.com/internetarchive/Zeno/pkg/models"
 )
 
@@ -129,6 +130,7 @@ func (f *finisher) worker(workerID string) {
 				isComplete := seed.CompleteAndCheck()
 				if !isComplete {
 					logger.Debug("seed has fresh children", "seed", seed.GetShortID())
+					verifhook.At("finisher.feedback", seed.GetID())
 					err := reactor.ReceiveFeedback(seed)
 					if err != nil && err != reactor.ErrReactorFrozen {
 						panic(err)
@@ -138,10 +140,12 @@ func (f *finisher) worker(workerID string) {
 
 				// If the seed has no fresh redirection or children, mark it as finished
 				logger.Debug("seed has no fresh redirection or children", "seed", seed.GetShortID())
+				verifhook.At("finisher.beforeMarkFinished", seed.GetID())
 				err := reactor.MarkAsFinished(seed)
 				if err != nil {
 					panic(err)
 				}
+				verifhook.At("finisher.afterMarkFinished", seed.GetID())
 
 				// Notify the source that the seed has been finished
 				// E.g.: to delete the seed in Crawl HQ
@@ -149,6 +153,7 @@ func (f *finisher) worker(workerID string) {
 					f.sourceFinishedCh <- seed
 				}
 
+				verifhook.At("finisher.afterNotify", seed.GetID())
 				stats.SeedsFinishedIncr()
 				logger.Debug("seed finished", "seed", seed.GetShortID())
 			}
